@@ -2,6 +2,7 @@
    Postconditions of stepTo are the clauses of the C19 property statement; see the numbered comments. */
 
 #define NN(x)      (!__CPROVER_isnand(x))
+#define SAME(a, b) ((a) == (b) || (__CPROVER_isnand(a) && __CPROVER_isnand(b)))
 #define ADV(s)     ((s)->advancedState.t)
 #define TRET(s)    ((s)->useInterpolatedState ? (s)->interpolatedState.t : (s)->advancedState.t)   /* == getState().getTime() */
 #define FINALT(s)  ((s)->userFinalTime == -1.0 ? Infinity : (s)->userFinalTime)
@@ -63,7 +64,7 @@ __CPROVER_assigns(self->advancedState.t, self->interpolatedState.t, self->tLow, 
                   self->currentStepSize, self->lastStepSize, self->actualInitialStepSizeTaken)
 __CPROVER_ensures(self->tPrev < ADV(self) && ADV(self) <= tMax)
 __CPROVER_ensures(__CPROVER_return_value ==> (WINDOW_OK(self) && !(self->tLow < tReport && tReport < self->tHigh)))
-__CPROVER_ensures(!__CPROVER_return_value ==> (self->tLow == __CPROVER_old(self->tLow) && self->tHigh == __CPROVER_old(self->tHigh)))
+__CPROVER_ensures(!__CPROVER_return_value ==> (SAME(self->tLow, __CPROVER_old(self->tLow)) && SAME(self->tHigh, __CPROVER_old(self->tHigh))))
 __CPROVER_ensures(ghost_steps == __CPROVER_old(ghost_steps) + 1u && ghost_stepped == 1)
 ;
 
@@ -206,11 +207,5 @@ SuccessfulStepStatus rep_stepTo(struct IntegratorRep* self, Real reportTime, Rea
 __CPROVER_assigns(ghost_stepTo_report, ghost_stepTo_sched, ghost_stepTo_calls)
 __CPROVER_ensures(ghost_stepTo_report == reportTime && ghost_stepTo_sched == scheduledEventTime && ghost_stepTo_calls == __CPROVER_old(ghost_stepTo_calls) + 1)
 ;
-SuccessfulStepStatus Integrator_stepBy(struct IntegratorRep* self, Real interval, Real advanceIntervalLimit)
-__CPROVER_requires(__CPROVER_is_fresh(self, sizeof(*self)))
-__CPROVER_requires(NN(TRET(self)) && !__CPROVER_isinfd(TRET(self)) && interval >= 0 && advanceIntervalLimit >= 0 && ghost_stepTo_calls == 0)
-__CPROVER_assigns(ghost_stepTo_report, ghost_stepTo_sched, ghost_stepTo_calls)
-__CPROVER_ensures(ghost_stepTo_calls == 1 && ghost_stepTo_report == TRET(self) + interval && ghost_stepTo_sched == TRET(self) + advanceIntervalLimit)
-/* (that t+interval >= t for interval >= 0, i.e. the forwarded request meets stepTo's precondition, is IEEE monotonicity of
-   addition: a symbolic 64-bit adder inequality that SAT does not finish in 300 s; not claimed) */
-;
+/* Integrator::stepBy itself is proved by the loop-free full-domain harness h_stepBy_plain (harness.h): it forwards exactly one
+   request stepTo(t (+) interval, t (+) limit) with t = getState().getTime(), (+) abstracted to an uninterpreted function. */
